@@ -158,29 +158,36 @@ theorem Chan.recv_blocks_iff_empty (w : World) (c : TCtl) (qi : Nat) (s : ChanSt
   rw [this]
   by_cases h0 : s.msgCnt = 0 <;> simp [h0]
 
-/-- **C09.3 (wake).**  After a send, thread `i`'s entry is: `Runnable` if the channel was empty,
-`i` is not the sender and `i`'s pending operation is on this channel object; unchanged otherwise.
+/-- **C09.3 (wake).**  After a send, thread `i`'s entry is: woken (`Thread.wake`: `Runnable` if it was
+`Blocked`, untouched otherwise) if the channel was empty, `i` is not the sender and `i`'s pending operation
+is on this channel object; unchanged otherwise.
 (So a send into a non-empty channel changes no thread; the sender itself is never changed.) -/
 theorem Chan.send_wakes {w w' : World} {o : Nat} {v : Int} {s : ChanSt}
     (h : w.getChan o = .ok s) (hs : w.sendEffect o v = .ok w') (i : Nat) :
     w'.ths.get i =
       if s.msgCnt = 0 ∧ i ≠ w.tid ∧ (∃ op, (w.ths.get i).operation = some op ∧ op.obj = o) then
-        (w.ths.get i).setRunnable
+        (w.ths.get i).wake
       else w.ths.get i :=
   sendEffect_threads h hs i
 
-/-- A consequence worth spelling out (`Thread::set_runnable` overwrites the whole state): a thread
-that is `Runnable { unparked: true }` — it holds an unpark token — and whose pending operation is
-on this channel LOSES the token when another thread sends into the empty channel; its next `park`
-will block.  (Observation about the model = the code; whether a program can exhibit it is a C01 /
-C07 question, not decided here.) -/
-theorem Chan.send_wake_clears_unpark_token {w w' : World} {o : Nat} {v : Int} {s : ChanSt}
-    (h : w.getChan o = .ok s) (hs : w.sendEffect o v = .ok w') (i : Nat) (op : Operation)
-    (h0 : s.msgCnt = 0) (hi : i ≠ w.tid) (hop : (w.ths.get i).operation = some op)
-    (hobj : op.obj = o) (_hst : (w.ths.get i).state = .runnable true) :
-    (w'.ths.get i).state = .runnable false := by
-  rw [Chan.send_wakes h hs i, if_pos ⟨h0, hi, op, hop, hobj⟩]
-  rfl
+/-- A consequence worth spelling out (since the repair of finding F18 the wake-up is `Thread.wake`, which
+touches blocked threads only): a thread that is not `Blocked` is left alone by a send, whatever its pending
+operation; in particular a thread that is `Runnable { unparked: true }` — it holds an unpark token — and whose
+(stale) pending operation is on this channel KEEPS the token when another thread sends into the empty
+channel.  (Before the repair `Thread::set_runnable` overwrote the whole state and the token was lost:
+the old theorem `Chan.send_wake_clears_unpark_token`.) -/
+theorem Chan.send_wake_keeps_unpark_token {w w' : World} {o : Nat} {v : Int} {s : ChanSt}
+    (h : w.getChan o = .ok s) (hs : w.sendEffect o v = .ok w') (i : Nat) :
+    ((w.ths.get i).state ≠ .blocked → w'.ths.get i = w.ths.get i) ∧
+    ((w.ths.get i).state = .runnable true → (w'.ths.get i).state = .runnable true) := by
+  have key : (w.ths.get i).state ≠ .blocked → w'.ths.get i = w.ths.get i := by
+    intro hb
+    rw [Chan.send_wakes h hs i]
+    split
+    · simp [Thread.wake, Thread.isBlocked, hb]
+    · rfl
+  refine ⟨key, fun hst => ?_⟩
+  rw [key (by rw [hst]; simp), hst]
 
 /-- **C09.3 (block).**  After a successful receive, every OTHER thread `i`'s entry is: `Blocked`
 if the channel became empty (`msg_cnt` was 1) and `i`'s pending operation is a `MsgRecv` on this
